@@ -89,7 +89,7 @@ FLOORS = {
 }
 
 CAP = 48
-SECONDS = 3.0
+SECONDS = 10.0
 MATCHES_PER_SLOT = 4
 
 _state = {}
